@@ -84,19 +84,29 @@ INH_ASSUME = EVAL_COMMON_ASSUME + [
     "a handle counts as dead only when every probed attribute raises DeletedObjectError",
 ]
 prop("C03", engine="inh", worker="make_inh_trace", prefixes=["C03."], level="model_checking",
+     mc=("MxInherit", "MC_MxInherit_quick.cfg", "MC_MxInherit_thorough.cfg"),
+     mbt_opts={"deep": True, "checkdefs": True, "handles": True},
      jobs=lambda tier: [("inherit", dict()), ("delete", dict())],
      quick=dict(traces=160, nops=25), thorough=dict(traces=4000, nops=40),
      also=["C02.NoStale", "C01.Transparent"])
 prop("C10", engine="inh", worker="make_inh_trace", prefixes=["C10."], level="model_checking",
+     mc=("MxInherit", "MC_MxInherit_quick.cfg", "MC_MxInherit_thorough.cfg"),
+     mbt_opts={"deep": True, "checkdefs": True, "handles": True},
      jobs=lambda tier: [("refmode", dict()), ("inherit", dict())],
      quick=dict(traces=160, nops=25), thorough=dict(traces=4000, nops=40))
 prop("C11", engine="inh", worker="make_inh_trace", prefixes=["C11."], level="model_checking",
+     mc=("MxInherit", "MC_MxInherit_quick.cfg", "MC_MxInherit_thorough.cfg"),
+     mbt_opts={"deep": True, "checkdefs": True, "handles": True},
      jobs=lambda tier: [("names", dict()), ("inherit", dict())],
      quick=dict(traces=160, nops=25), thorough=dict(traces=4000, nops=40))
 prop("C12", engine="inh", worker="make_inh_trace", prefixes=["C12."], level="model_checking",
+     mc=("MxInherit", "MC_MxInherit_quick.cfg", "MC_MxInherit_thorough.cfg"),
+     mbt_opts={"deep": True, "checkdefs": True, "handles": True},
      jobs=lambda tier: [("names", dict()), ("inherit", dict())],
      quick=dict(traces=160, nops=25), thorough=dict(traces=4000, nops=40))
 prop("C13", engine="inh", worker="make_inh_trace", prefixes=["C13."], level="model_checking",
+     mc=("MxInherit", "MC_MxInherit_quick.cfg", "MC_MxInherit_thorough.cfg"),
+     mbt_opts={"deep": True, "checkdefs": True, "handles": True},
      jobs=lambda tier: [("delete", dict()), ("inherit", dict())],
      quick=dict(traces=160, nops=25), thorough=dict(traces=4000, nops=40))
 
@@ -289,7 +299,7 @@ def run_mc(cfg, tier, seed):
             seen.add(key)
             defs = inst["inits"][h[0]["id"] - 1]
             ops = h[1:] + sweep_ops(defs)
-            jobs.append((defs, ops, {"deep": True}))
+            jobs.append((defs, ops, dict(cfg.get("mbt_opts", {"deep": True}))))
         limit = cfg.get("mbt_limit", {}).get(tier)
         if limit and len(jobs) > limit:
             random.Random(seed).shuffle(jobs)
